@@ -277,6 +277,13 @@ func (s *Error) UnmarshalXML(d *xml.Decoder, start xml.StartElement) error {
 			if err = d.Skip(); err != nil {
 				return err
 			}
+		default:
+			// Application specific payloads (and anything else we don't know
+			// about) are skipped whole so that their end element is not mistaken
+			// for the end of the stream error.
+			if err = d.Skip(); err != nil {
+				return err
+			}
 		}
 	}
 }
